@@ -4,6 +4,13 @@ import json, os
 root = os.path.dirname(os.path.abspath(__file__))
 reg = json.load(open(os.path.join(root, 'checks.json')))
 props = [json.loads(l) for l in open(os.path.join(root, 'properties.jsonl'))]
+import glob
+reg['checks'] = []
+for f in sorted(glob.glob(os.path.join(root, 'harness', '*', 'checks.json'))):
+    b = os.path.basename(os.path.dirname(f))
+    for c in json.load(open(f)):
+        c['bin'] = b
+        reg['checks'].append(c)
 claimed = {c['id']: c for c in reg['checks']}
 checks = []
 for p in props:
